@@ -320,7 +320,9 @@ func (d Duration) Binary(op syntax.Token, y starlark.Value, side starlark.Side) 
 			if y == 0 {
 				return nil, fmt.Errorf("%s division by zero", d.Type())
 			}
-			return starlark.MakeInt64(x.Nanoseconds() / time.Duration(y).Nanoseconds()), nil
+			// Floored division, like int // int (and exact for MinInt64 // -1ns).
+			xn, yn := x.Nanoseconds(), time.Duration(y).Nanoseconds()
+			return starlark.MakeInt64(xn).Div(starlark.MakeInt64(yn)), nil
 		}
 
 	case syntax.STAR:
